@@ -412,7 +412,7 @@ func ruleP10Epoch(p *Prog, r *Report) {
 	// the closure: offset + initial count - len(arg)
 	okNr := false
 	for _, ret := range returnsOf(nr) {
-		pl := polyOf(ret.Results[0])
+		pl := polyOf(retResult(ret, 0))
 		neg := 0
 		for k, cf := range pl.Terms {
 			if strings.Contains(k, "len") || cf == -1 {
@@ -536,14 +536,14 @@ func ruleP10Accessors(p *Prog, r *Report) {
 			continue
 		}
 		for _, ret := range returnsOf(f) {
-			r.check(a.check(ret.Results[0]), rule, "err."+a.name, p.instrPos(ret), a.name+"() reads the field the constructor wrote", a.name+"() does not return the value the error was constructed with")
+			r.check(a.check(retResult(ret, 0)), rule, "err."+a.name, p.instrPos(ret), a.name+"() reads the field the constructor wrote", a.name+"() does not return the value the error was constructed with")
 		}
 	}
 	// OverallLineIndex = precedingLineCount + index
 	oli := p.method("klog/parser/txt", "block", "OverallLineIndex")
 	if r.anchorFn(rule, oli, "block.OverallLineIndex") {
 		for _, ret := range returnsOf(oli) {
-			pl := polyOf(ret.Results[0])
+			pl := polyOf(retResult(ret, 0))
 			ok := pl.C == 0 && len(pl.Terms) == 2
 			for k, c := range pl.Terms {
 				if c != 1 || !(strings.HasSuffix(k, ".precedingLineCount") || strings.HasPrefix(k, "param:")) {
@@ -558,7 +558,7 @@ func ruleP10Accessors(p *Prog, r *Report) {
 	if r.anchorFn(rule, tev, "json.toErrorViews") {
 		want := map[string]string{"Line": "LineNumber", "Column": "Column", "Length": "Length", "Title": "Title", "Details": "Details", "File": "Origin"}
 		got := map[string]bool{}
-		eachInstr(tev, func(in ssa.Instruction) {
+		eachInstrIn(withAnons(tev), func(in ssa.Instruction) {
 			st, ok := in.(*ssa.Store)
 			if !ok {
 				return
@@ -590,7 +590,7 @@ func ruleP10Accessors(p *Prog, r *Report) {
 		}
 		// every error rendered, in order
 		for _, ret := range returnsOf(tev) {
-			phis, ins := phiCycle(ret.Results[0])
+			phis, ins := phiCycle(retResult(ret, 0))
 			ok := len(phis) > 0
 			nApp := 0
 			for _, in := range ins {
